@@ -108,8 +108,10 @@ def skip (bs : List Byte) (s : Sc) (pos size : Nat) : Step :=
 
 /-- one iteration of the `while (! done)` loop of `svx_read_header` after the FORM chunk.  `fx` = the repair of KF-SVX-BODY-PAD is in
     (the BODY case records `psf->dataend` when bytes follow the chunk); `fx = false` is the rule before it (`dataend` stays 0 and
-    pcm_init takes the data length from the file length: the IFF pad byte and trailing chunks are counted as audio) -/
-def stepW (fx : Bool) (bs : List Byte) (s : Sc) : Step :=
+    pcm_init takes the data length from the file length: the IFF pad byte and trailing chunks are counted as audio).
+    `nm` = the NAME rule before the repair of KF-SVX-NAME-LENGTH: a NAME chunk longer than 255 bytes failed the open
+    (SFE_SVX_BAD_NAME_LENGTH) — the writer emits 256 for a file name of 254 or 255 characters; now such a chunk is skipped -/
+def stepX (fx nm : Bool) (bs : List Byte) (s : Sc) : Step :=
   if s.used > cacheLimit then .unm else
   let flen := bs.length
   let (m, pos) := rdN bs s.pos 4
@@ -135,7 +137,7 @@ def stepW (fx : Bool) (bs : List Byte) (s : Sc) : Step :=
     fin (.cont { s with pos := pos + dl.toNat, haveBody := true, dataoffset := pos,
                         dataend := if fx ∧ (pos : Int) + dl < (flen : Int) then (pos : Int) + dl else s.dataend })
   else if m = mk4 "NAME" then
-    if size > 255 then .fail else                                 -- SFE_SVX_BAD_NAME_LENGTH
+    if nm ∧ size > 255 then .fail else                            -- the old rule: SFE_SVX_BAD_NAME_LENGTH
     fin (skip bs s pos size)
   else if m = mk4 "ANNO" ∨ m = mk4 "AUTH" ∨ m = mk4 "(c) " then fin (skip bs s pos size)
   else if m = mk4 "CHAN" then
@@ -149,18 +151,20 @@ def stepW (fx : Bool) (bs : List Byte) (s : Sc) : Step :=
   else if pos % 4 ≠ 0 then fin (skip bs s pos (4 - pos % 4))      -- "Resynching"
   else .stop s
 
+def stepW (fx : Bool) (bs : List Byte) (s : Sc) : Step := stepX fx false bs s
 def step (bs : List Byte) (s : Sc) : Step := stepW true bs s
 def stepOld (bs : List Byte) (s : Sc) : Step := stepW false bs s
 
-def walkW (fx : Bool) (bs : List Byte) : Nat → Sc → Option (Option Sc)      -- none: unmodelled, some none: error
+def walkX (fx nm : Bool) (bs : List Byte) : Nat → Sc → Option (Option Sc)      -- none: unmodelled, some none: error
   | 0, _ => none
   | fuel+1, s =>
-    match stepW fx bs s with
-    | .cont s' => walkW fx bs fuel s'
+    match stepX fx nm bs s with
+    | .cont s' => walkX fx nm bs fuel s'
     | .stop s' => some (some s')
     | .fail => some none
     | .unm => none
 
+def walkW (fx : Bool) (bs : List Byte) : Nat → Sc → Option (Option Sc) := walkX fx false bs
 def walk (bs : List Byte) : Nat → Sc → Option (Option Sc) := walkW true bs
 
 /-- the checks after the loop, svx_open, pcm_init, validate_sfinfo, validate_psf -/
@@ -171,8 +175,8 @@ def finish (flen : Nat) (bytewidth : Nat) (s : Sc) : ParseRes :=
   if s.sr < 1 ∨ r.2 < 0 ∨ r.1 < 0 then .err else
   .ok { ch := s.ch, fmt := 0x060000 + bytewidth, sr := s.sr, frames := r.2.toNat }
 
-/-- `sf_open_virtual (SFM_READ)` on `bs` (`fx`: see `stepW`) -/
-def parseW (fx : Bool) (bs : List Byte) : ParseRes :=
+/-- `sf_open_virtual (SFM_READ)` on `bs` (`fx`, `nm`: see `stepX`) -/
+def parseX (fx nm : Bool) (bs : List Byte) : ParseRes :=
   if bs.length < 12 then .err else                               -- guess_file_type: SFE_BAD_FILE_READ
   if bs.take 4 ≠ mk4 "FORM" then .unmodelled else
   let t := (bs.drop 8).take 4
@@ -181,13 +185,16 @@ def parseW (fx : Bool) (bs : List Byte) : ParseRes :=
   let bytewidth := if t = mk4 "8SVX" then 1 else 2
   let s0 : Sc := {}
   if (12 : Int) ≥ (bs.length : Int) - 4 then finish bs.length bytewidth s0 else
-  match walkW fx bs bs.length s0 with
+  match walkX fx nm bs bs.length s0 with
   | none => .unmodelled
   | some none => .err
   | some (some s) => finish bs.length bytewidth s
 
+def parseW (fx : Bool) (bs : List Byte) : ParseRes := parseX fx false bs
 def parse (bs : List Byte) : ParseRes := parseW true bs
 /-- the reader before the repair of KF-SVX-BODY-PAD -/
 def parseOld (bs : List Byte) : ParseRes := parseW false bs
+/-- the reader before the repair of KF-SVX-NAME-LENGTH (an over-long NAME chunk fails the open) -/
+def parseNameOld (bs : List Byte) : ParseRes := parseX true true bs
 
 end Sf.Svx
